@@ -305,7 +305,15 @@ func (bc *boundCtx) leLen(v, s ssa.Value, strict bool, at ssa.Instruction, depth
 							switch {
 							case b.Op == token.EQL && !ec.Val && m == 0 && (n == 0 || (n == 1 && !strict)): // len != 0
 								return true
+							case b.Op == token.NEQ && ec.Val && m == 0 && (n == 0 || (n == 1 && !strict)): // len != 0, spelled so
+								return true
 							case b.Op == token.GTR && ec.Val && m >= n:
+								return true
+							case b.Op == token.LEQ && !ec.Val && m >= n: // !(len <= m)
+								return true
+							case b.Op == token.GEQ && ec.Val && (m > n || (!strict && m >= n)): // len >= m
+								return true
+							case b.Op == token.LSS && !ec.Val && (m > n || (!strict && m >= n)): // !(len < m)
 								return true
 							case b.Op == token.EQL && ec.Val && (m > n || (!strict && m >= n)):
 								return true
@@ -459,8 +467,19 @@ func c16Index(c *Ctx) {
 							le = true
 						}
 						for _, ec := range condsDominating(x.Block()) {
-							if b, ok := ec.Cond.(*ssa.BinOp); ok && ec.Val && (b.Op == token.LSS || b.Op == token.LEQ) && sameValue(b.X, x.Low) && sameValue(b.Y, x.High) {
+							b, ok := ec.Cond.(*ssa.BinOp)
+							if !ok {
+								continue
+							}
+							switch {
+							case ec.Val && (b.Op == token.LSS || b.Op == token.LEQ) && sameValue(b.X, x.Low) && sameValue(b.Y, x.High):
 								le = true
+							case ec.Val && (b.Op == token.GTR || b.Op == token.GEQ) && sameValue(b.X, x.High) && sameValue(b.Y, x.Low):
+								le = true // high > low
+							case !ec.Val && (b.Op == token.GTR || b.Op == token.GEQ) && b.Op == token.GTR && sameValue(b.X, x.Low) && sameValue(b.Y, x.High):
+								le = true // !(low > high)
+							case !ec.Val && b.Op == token.LSS && sameValue(b.X, x.High) && sameValue(b.Y, x.Low):
+								le = true // !(high < low)
 							}
 						}
 						okI = le
